@@ -13,7 +13,7 @@ LEVEL_TEXT = ("Class-invariant proof for Forcing.update over all histories: with
               "dU == slope_b, scalar field == frame_b; the invariant is preserved on the frame-step and ordinary-step paths for every spacing >= 1 (sorted symbolic step list of any length), "
               "and velocity(frac) samples u + frac*dU, i.e. the interpolation at step + frac. __init__'s pre-roll, the file bookkeeping and forcing_steps are covered by the bounded layout sweep.")
 LEVEL_NOTE = ("frames are an uninterpreted function of their step; _read_velocity/_read_field are used through their contract (returns the frame of the requested step); "
-              "Forcing.__init__, _select_forcing_file and forcing_steps/scan_file_times: bounded only (160 layouts quick); netCDF4 assumed")
+              "the file loop of scan_file_times is proved by induction over the files (frame list == concatenation, frame counts per file); end-to-end composition over real files: bounded (160 layouts quick); netCDF4 assumed")
 TECHNIQUE = "contract-based deductive verification (class invariant over a symbolic sorted step sequence, ghost bracket index, hand-instantiated quantifiers) + bounded layout sweep"
 EXPLANATION = "Invariant of the frame hand-over proved for all spacings; pre-roll and file selection bounded."
 ASSUMPTIONS = ["frames lie on the model time grid, spacing >= 1 step (the property's quantifier)", "the run ends before the last forcing frame (checked at start-up by forcing_steps)"]
